@@ -1,3 +1,4 @@
+import PV.Lemmas.Base64Window
 import PV.Model.Tools2
 import PV.Lemmas.Tools2
 import PV.Model.Base64
@@ -168,5 +169,34 @@ example : base64Number [[97, 71, 107, 61], [], [89, 81, 111, 75, 89, 103, 108, 1
     some [[104, 105, 9, 48], [97, 9, 50], [98, 32, 98, 9, 50]] := by decide
 
 end Number
+
+section Window
+/-! Texts too long to run: the encoder's output is compositional at 3-byte boundaries, so any 4-aligned window of the output of a
+    text of ANY length is the encoding of the corresponding input window, and the length is 4*ceil(n/3).  The correspondence run
+    judges base64_encode on texts of 2^31 .. 2^32+k bytes (which the model cannot hold) by windows through these theorems;
+    `decode_rejects_foreign` above does the same for base64_decode on such texts. -/
+/-- RFC 4648 encoding is compositional at multiples of three bytes -/
+theorem rfc4648_append (a b : List UInt8) (h : a.length % 3 = 0) :
+    rfc4648 (a ++ b) = rfc4648 a ++ rfc4648 b := by
+  exact PV.Lemmas.Base64Window.rfc4648_append a b h
+
+/-- the encoded length is 4 * ceil(n / 3), for every n -/
+theorem encode_length (bs : List UInt8) : (encode bs).length = 4 * ((bs.length + 2) / 3) := by
+  exact PV.Lemmas.Base64Window.encode_length bs
+
+/-- a window of the output at a 4-aligned offset is the encoding of the corresponding 3-aligned input window, whatever
+    precedes and follows it and however long the whole text is -/
+theorem encode_window (pre mid post : List UInt8) (hp : pre.length % 3 = 0) (hm : mid.length % 3 = 0) :
+    ((encode (pre ++ mid ++ post)).drop (4 * (pre.length / 3))).take (4 * (mid.length / 3)) = encode mid := by
+  exact PV.Lemmas.Base64Window.encode_window pre mid post hp hm
+
+/-- and the final window (the last 1..3 input bytes, with padding) likewise -/
+theorem encode_tail (pre last : List UInt8) (hp : pre.length % 3 = 0) :
+    (encode (pre ++ last)).drop (4 * (pre.length / 3)) = encode last := by
+  exact PV.Lemmas.Base64Window.encode_tail pre last hp
+
+example : encode [0, 0, 0, 77, 97, 110, 0] = [65, 65, 65, 65, 84, 87, 70, 117, 65, 65, 61, 61] := by decide +kernel
+
+end Window
 
 end PV.Props.C09
